@@ -246,7 +246,7 @@ def _c04_nontrivial(docs):
 
 
 def _gen_c01(rng, max_stages):
-    g = S.Gen(rng, keys=("a", "b", "_u", "c", 0, 1, 2.5), atoms=(1, 0, "x", "", None, True, False, 2.5, -3, "1", "yes"),
+    g = S.Gen(rng, keys=("a", "b", "_u", "c", 0, 1, 2.5), atoms=(1, 0, "x", "", None, True, False, 2.5, -3, "1", "yes", "8080", "12", "true", "2.5", "null"),
               tags=("force", "weak", "del", "merge", "new", "unsafe", "md"), max_depth=rng.choice([2, 3, 4, 5]), max_width=4,
               p_tag=0.4, p_empty=0.12)
     return [g.doc()], [True]
